@@ -112,6 +112,13 @@ def gen_cases(ctx):
             if rng.random() < 0.5:
                 b["reverse"] = True
                 b["delay"] = rng.choice([0.1, 0.2, 0.3, 0.5, 0.8, 1, 1.5, 2, 3, 4])
+                if net_ref.level(b["u"]) < 4 and rng.random() < 0.7:
+                    # the member's OWN hop fails (absent child): its driver goes through the software
+                    # re-send loop while the multicast waits unread in its RX FIFO
+                    kids = [b["u"] | (c << (3 * net_ref.level(b["u"]))) for c in range(1, 6)]
+                    kids = [a for a in kids if a not in nodes and a != net_ref.DEFAULT_ADDR]
+                    if kids:
+                        b["d"] = rng.choice(kids)
         prefail = []
         if i % 6 == 1:
             # a fragmented unicast that fails outright (absent sibling), then a multicast to the
@@ -131,6 +138,11 @@ def gen_cases(ctx):
                     u, d = rng.choice(cands)
                     others = [v for v in nodes if v != u and v not in mc_off]
                     if others:
+                        if net_ref.level(u) < 4 and rng.random() < 0.7:
+                            kids = [u | (c << (3 * net_ref.level(u))) for c in range(1, 6)]
+                            kids = [a for a in kids if a not in nodes and a != net_ref.DEFAULT_ADDR]
+                            if kids:
+                                d = rng.choice(kids)  # the failing hop is the sender's own
                         prefail.append({"u": u, "d": d, "v": rng.choice(others), "ulen": rng.choice([30, 60, 10]),
                                         "len": rng.choice([4, 8, 24])})
         lazy = [a for a in nodes if i % 4 == 3 and rng.random() < 0.5]
